@@ -184,6 +184,28 @@ def handleC04 (toks : List String) : String :=
         | some (some b) => showBool b
       | _, _, _ => err "format"
     | _, _ => err "format"
+  -- family rtol atol a b c alpha beta gamma: Box.identifyfamily(rtol, atol) on the six lattice parameters
+  | "family" :: xs =>
+    match parseRats? xs with
+    | some [rtol, atol, a, b, c, al, be, ga] =>
+      match identifyFamily (closeK rtol atol) (90 : Rat) 120 ⟨a, b, c, al, be, ga⟩ with
+      | some f => f.name
+      | none => "none"
+    | _ => err "format"
+  -- resolve setting checkBasis checkFamily rtol atol a b c alpha beta gamma n box(12) atoms(e = 0): the setting
+  -- conventional_to_primitive works with (family test + lattice-site test at the caller's tolerances; 't' -> t1 / t2)
+  | "resolve" :: setting :: cb :: cf :: rest =>
+    match parseBool? cb, parseBool? cf, parseRats? (rest.take 8), ((rest.drop 8).head?).bind String.toNat?,
+          parseRats? ((rest.drop 9).take 12) with
+    | some cb, some cf, some [rtol, atol, a, b, c, al, be, ga], some n, some bx =>
+      match M3.ofList? (bx.take 9), V3.ofList? (bx.drop 9), parseAtoms 0 n (rest.drop 21) with
+      | some v, some o, some atoms =>
+        let fam := identifyFamily (closeK rtol atol) (90 : Rat) 120 ⟨a, b, c, al, be, ga⟩
+        match resolveSetting (fun s => checkSettingBasis Rat.floor fam ⟨v, o⟩ (atol * atol) cf s atoms) cb setting with
+        | some s => s
+        | none => err "value"
+      | _, _, _ => err "format"
+    | _, _, _, _, _ => err "format"
   | _ => err "op"
 
 def main : IO Unit := runDriver handleC04
